@@ -213,6 +213,8 @@ def grid_case(draw, with_tensor=False):
              modes=[list(m) for m in modes], poly=[list(q) for q in poly])
     if with_tensor:
         c["rank"] = draw(st.integers(0, 3))
+        c["amp_exp2"] = draw(st.sampled_from([0, 0, -30, -40, -60, -200, 20,
+                                              100]))
     return c
 
 
@@ -289,6 +291,39 @@ def test_componentwise(case, note):
                  "d3x_rank3tensor": (fd.d3x_rank3tensor, want_axis[0]),
                  "d3y_rank3tensor": (fd.d3y_rank3tensor, want_axis[1]),
                  "d3z_rank3tensor": (fd.d3z_rank3tensor, want_axis[2])}
+    # homogeneity at any amplitude (the operators are linear: scaling the
+    # samples by a power of two scales the result exactly), and the same
+    # array object differentiated again after its contents were replaced in
+    # place (a preallocated buffer that is refilled every time step)
+    scale = 2.0 ** case.get("amp_exp2", 0)
+    if scale != 1.0:
+        note.cls("amplitude=2^%d" % case.get("amp_exp2", 0))
+    arg = (T if rank else comps[0])
+    buf = np.array(arg, copy=True)
+    for name, (fn, want) in table.items():
+        if scale != 1.0:
+            gs = fn(arg * scale)
+            # (exact up to underflow into subnormals)
+            if gs.shape != want.shape or not np.all(
+                    np.abs(gs - want * scale)
+                    <= 1e-13 * np.max(np.abs(want * scale)) + 1e-300):
+                raise PropertyFailure(
+                    f"{name}:not-homogeneous",
+                    dict(scale=scale, maxdiff=float(np.max(np.abs(
+                        gs - want * scale))) if gs.shape == want.shape
+                        else None))
+        first = fn(buf)
+        buf *= -0.5
+        buf += 0.25
+        again = fn(buf)
+        fresh = fn(np.array(buf, copy=True))
+        buf[...] = arg
+        if first.shape != want.shape or not np.array_equal(first, want) \
+                or not np.array_equal(again, fresh):
+            raise PropertyFailure(
+                f"{name}:same-array-new-contents",
+                dict(maxdiff=float(np.max(np.abs(again - fresh)))
+                     if again.shape == fresh.shape else None))
     for name, (fn, want) in table.items():
         got = fn(T if rank else comps[0])
         if got.shape != want.shape:
